@@ -41,6 +41,7 @@ import SwcVerif.Model.AlgoRunResample
 import SwcVerif.Model.AlgoRunResampleTree
 import SwcVerif.Model.AlgoRunRaster
 import SwcVerif.Model.AlgoRunImgIo
+import SwcVerif.Model.AlgoRunImgIo2
 import SwcVerif.Model.AlgoRunParse
 import SwcVerif.Model.AlgoRunCut
 import SwcVerif.Model.AlgoRunShortTip
@@ -115,6 +116,7 @@ def dispatch (op : String) (args : List String) : String :=
   | "gresamtree" => AlgoRun.handleResamTree args
   | "gsamplers" | "gscene" | "graster" => AlgoRun.handleRaster op args
   | "gimgsave" | "gimgload" | "gimgnd" | "gimgio" | "gimgget" | "gimgread" => AlgoRun.handleImgIo op args
+  | "gtostack" | "gsavetifw" | "gsavetifio" | "gfull" | "ggray" | "gframend" | "gnrrd" | "gv3d" | "gv3draw" | "gv3dpbd" => AlgoRun.handleImgIo2 op args
   | "gparse" => AlgoRun.handleParse args
   | "gtosubtree" | "gcutenter" | "gcutdepth" | "gcutleave" | "gcutleaveset" | "gcuttype" | "gcutorder" => AlgoRun.handleCut op args
   | "gcuttip" => AlgoRun.handleShortTip op args
